@@ -4,6 +4,11 @@
 // "at no instant are more than num_workers target commands running".
 package worker
 
+// C03: the pool has exactly the requested number of workers (the CPU count only when none was requested)
+//@ func NewTaskWorkerPool(logger, maxWorkers, sendMsg, totalTasks) (p)
+//@   allocates p
+//@   ensures [sized_as_requested] p != nil && p.maxWorkers == ite(old(maxWorkers) < 1, numCPU(), old(maxWorkers)) && p.maxWorkers >= 1
+
 // exactly maxWorkers worker goroutines are started
 //@ func (*TaskWorkerPool[T]).StartWorkers(twp, ctx) ()
 //@   ensures [spawned_exactly_max_workers] twp.maxWorkers >= 0 ==> workersSpawned == old(workersSpawned) + twp.maxWorkers
